@@ -43,6 +43,7 @@ func init() {
 			{Name: "argconv", Run: runArgConv},
 			{Name: "repr", Run: runRepr},
 			{Name: "order", Run: runOrder},
+			{Name: "wrappers", Run: runWrappers},
 			{Name: "len4", Run: runLen4, ThoroughOnly: true},
 		},
 		Assumptions: []string{
